@@ -128,6 +128,20 @@ def solve_campaign(ctx, n_systems, gen_kw=None, case_kw=None, filt=None, variant
     return res, cases
 
 
+def mc_laws(ctx, res):
+    """row theorems of the documented laws (spec/MCLaws.tla): functional form accepted / perturbed form rejected by the
+    relations the validator uses, energy row, loss bounds, efficiency range, passive no gain, mirror"""
+    m = tlc.run_mc("MCLaws.tla", "MCLaws.cfg", ctx.work, workers=4)
+    m["name"] = "row theorems of the component laws on a parameter / operating-point lattice (11 kinds, both polarities)"
+    res.mc.append(m)
+    if not m["ok"]:
+        import re
+        if re.search(r"Invariant \w+ is violated", m["out"]):
+            res.mc_failures.append("MCLaws: " + m["out"][m["out"].find("Error:"):][:3000])
+        else:
+            raise tlc.TLCError(m["out"][-2000:])
+
+
 def edit_and_resolve(s, cases, rng, rail_rep, kw):
     """solve - edit - solve: after the system has been solved once, move a leaf to another parent (del_comp +
     add_comp, re-using the freed node index) or replace an interior component by an equal one (change_comp), and
@@ -222,6 +236,8 @@ def _run(ctx, prop, n_q, n_t, rule, gen_kw=None, case_kw=None, filt=None, varian
     n = n_q if ctx.quick else n_t
     res, cases = solve_campaign(ctx, n, gen_kw, case_kw, filt, variants, post, matrix=matrix[0] if ctx.quick else matrix[1],
                                 skel=skel[0] if ctx.quick else skel[1], skel_want=skel_want)
+    if prop in ("C01", "C02"):
+        mc_laws(ctx, res)
     if extra_fixed:
         extra = []
         for b in extra_fixed:
